@@ -218,7 +218,9 @@ def cmd_argv(world):
         if o.get("dryRun"):
             a.append(b"--dry-run")
         a += [b"-v"] * o.get("verbose", 0)
-        if not o.get("ttyDefault"):
+        if o.get("flags"):
+            a += list(o["flags"])           # both -f and -i in some order and spelling: the last one counts
+        elif not o.get("ttyDefault"):
             a.append(b"-i" if o.get("interactive") else b"-f")       # ttyDefault: the mode follows isatty(stdin)
         if o.get("days") is not None:
             a.append(b"%d" % o["days"])
